@@ -165,6 +165,10 @@ func TestCheck(t *testing.T) {
 	for i := worker; i < maxRuns && time.Since(start) < budget; i += workers {
 		seed := simrt.Mix(base, fmt.Sprintf("%s/%d", prop, i))
 		sc, res := runOne(t, spec, seed, tier)
+		if simrt.RaceBuild {
+			res.Violations = append(res.Violations, scanRaces()...)
+			out.Stats["race_build_runs"]++
+		}
 		out.Runs++
 		if os.Getenv("HSIM_DIGESTS") != "" {
 			out.AllDigests = append(out.AllDigests, res.Digest)
@@ -279,6 +283,9 @@ func TestReplay(t *testing.T) {
 		_, res = spec.Custom(t, rf.Seed, "replay")
 	} else {
 		res = RunScenario(t, rf.Scenario)
+	}
+	if simrt.RaceBuild {
+		res.Violations = append(res.Violations, scanRaces()...)
 	}
 	reproduced := false
 	var got []Violation
